@@ -222,7 +222,12 @@ def run_random(spec):
         ops.append(('read',))
       elif u < 0.14:
         ops.append(('read_mutate', r.choice(['clear', 'reverse', 'append', 'drop'])))
-    run_history(ops, k, violations, counters, 'random k=%d n=%d kind=%s' % (k, n, kind))
+    k_arg = k
+    if h % 7 == 3:
+      import numpy as np  # pylint: disable=g-import-not-at-top
+      k_arg = r.choice([np.int64, np.int32, np.uint8])(k)      # a capacity computed with numpy, e.g. np.minimum(k, n)
+      counters['numpy_integer_capacity'] += 1
+    run_history(ops, k_arg, violations, counters, 'random k=%d n=%d kind=%s' % (k, n, kind))
     if is_nontrivial(pushes, k):
       f = util.fp([k, [[str(a), str(b)] for a, b in pushes]])
       fps.append(f)
